@@ -324,6 +324,52 @@ def parse_call(out):
     return None
 
 
+REUSE_TAGS = [
+    # (tag source using the variable `c` as count, singular text expected, plural text expected) -- placeholders DIFFER between the two
+    ("{% translate count: c %}One item{% plural %}{{ count }} items of {{ who }}{% endtranslate %}", "One item", "%(c)s items of W"),
+    ("{% translate count: c, who: who %}{{ who }} has one{% plural %}many ({{ count }}){% endtranslate %}", "W has one", "many (%(c)s)"),
+    ("{% translate count: c %}{{ who }}: 100%{% plural %}100% of {{ count }}{% endtranslate %}", "W: 100%", "100% of %(c)s"),
+    ("{% translate count: c %}plain{% plural %}{{ who }} {{ who }} {{ count }}{% endtranslate %}", "plain", "W W %(c)s"),
+]
+
+
+def reuse_family(ck: Check) -> None:
+    """One PARSED translate node rendered several times (a loop around the tag, and one template object rendered repeatedly) with
+    counts that alternate between singular and plural, the two messages having different placeholders: every rendering equals the
+    rendering of that count alone (oracle only: a node carries no state from one rendering to the next)."""
+    import itertools
+
+    for tag, sing, plur in REUSE_TAGS:
+        want = lambda c: sing if c == 1 else plur.replace("%(c)s", str(c))  # noqa: E731
+        for seq in itertools.product((1, 2, 0, 5), repeat=3):
+            for use_async in (False, True):
+                # (a) a for loop around the tag
+                src = "{% for c in cs %}[" + tag + "]{% endfor %}"
+                got = render(src, {"cs": list(seq), "who": "W"}, use_async)
+                exp = ("out", "".join("[" + want(c) + "]" for c in seq))
+                ck.note_case(("reuse-loop", tag, seq, use_async))
+                ck.count("tag.reuse")
+                ck.traces += 1
+                if got != exp and sum(1 for v in ck.violations if v.signature == "tag-node-reused-across-counts") < 3:
+                    ck.violation("impl-violation", "tag-node-reused-across-counts",
+                                 f"{src!r} with cs = {list(seq)}, who = 'W' ({'async' if use_async else 'sync'}) gives {got}, expected {exp}",
+                                 {"type": "tag", "template": src, "data": {"cs": list(seq), "who": "W"}, "reference": list(exp)})
+                # (b) one template object rendered once per count
+                try:
+                    t = env().from_string(tag)
+                    outs = [run_async(t.render_async(c=c, who="W")) if use_async else t.render(c=c, who="W") for c in seq]
+                    got2 = ("out", outs)
+                except Exception as e:  # noqa: BLE001
+                    got2 = ("err", classify_exc(e))
+                exp2 = ("out", [want(c) for c in seq])
+                ck.traces += 1
+                if got2 != exp2 and sum(1 for v in ck.violations if v.signature == "tag-template-reused-across-counts") < 3:
+                    ck.violation("impl-violation", "tag-template-reused-across-counts",
+                                 f"one template {tag!r} rendered with c = {list(seq)} in turn ({'async' if use_async else 'sync'}) gives {got2}, "
+                                 f"expected {exp2}",
+                                 {"type": "tag-reuse", "template": tag, "counts": list(seq), "async": use_async, "reference": exp2[1]})
+
+
 def run(ck: Check) -> None:
     ck.rule = (
         "filters: every message built from <=3 (quick) / <=4 pieces of {%, %%, %s, %(n)s, %(m)s, (, ), space, <, a, %(, )s, newline} "
@@ -349,6 +395,7 @@ def run(ck: Check) -> None:
     ck.assumptions = ["autoescape off (C05 covers escaping); message catalogues other than NullTranslations are out of scope; "
                       "count strings longer than the integer-string limit (a Liquid error by C07's limit) are not generated"]
     ck.proof()
+    reuse_family(ck)
 
     # ---- filters
     cases, expected, meta = [], [], []
@@ -506,6 +553,17 @@ def tag_sig(items, s, want=None):
 
 def replay(data) -> int:
     case = data["case"]
+    if case.get("type") == "tag-reuse":
+        try:
+            t = env().from_string(case["template"])
+            outs = [run_async(t.render_async(c=c, who="W")) if case["async"] else t.render(c=c, who="W") for c in case["counts"]]
+        except Exception as e:  # noqa: BLE001
+            outs = ["ERR:" + classify_exc(e)]
+        print("template:", case["template"], "counts in turn:", case["counts"])
+        print("got:", outs, "expected:", case["reference"])
+        bad = outs != case["reference"]
+        print(("VIOLATION reproduced" if bad else "not reproduced") + f" property={data['property']}")
+        return 1 if bad else 0
     if case.get("type") not in ("filter", "tag", "plural"):
         print("replay names a proof/correspondence obligation:", case)
         return 1
